@@ -147,7 +147,9 @@ def Index.getBlock (ix : Index) (id : Nat) : Option Blk :=
   | none => none
   | some h => ix.byHeight h
 
-/-- `UpdateLastAccepted`: `none` = error (expiry height not indexed), nothing written -/
+/-- `UpdateLastAccepted` (as of /repo commit 6de9247: a missing prune target is not an error, the
+batch is written without deletions); the `Option` is kept for the callers' error branch, which
+this index never takes -/
 def Index.update (ix : Index) (b : Blk) : Option Index :=
   let w : Index := { ix with byHeight := ix.byHeight.set b.height (some b),
                              hid := ix.hid.set b.height (some b.id),
@@ -156,7 +158,7 @@ def Index.update (ix : Index) (b : Blk) : Option Index :=
   else
     let e := b.height - ix.window
     match ix.hid e with
-    | none => none
+    | none => some w
     | some did =>
       some { w with byHeight := w.byHeight.set e none, idh := w.idh.set did none, hid := w.hid.set e none }
 
@@ -483,6 +485,14 @@ def finish (s : State) (input : Blk) (st : List Nat) : State × Res :=
 /-- `VM.HealthCheck`: readiness checker and (once registered) unresolved-blocks checker -/
 def health (s : State) : Res := .health s.ready (s.unresolved.map List.length)
 
+/-- the error value of `VM.HealthCheck` (`errors.Join` of the checkers' errors):
+`vmReadinessHealthCheck` fails with `errVMNotReady` iff not ready, `unresolvedBlockHealthCheck`
+fails with `errUnresolvedBlocks` iff its set is non-empty. Returns (err ≠ nil, Is notReady, Is unresolved) -/
+def healthErr (s : State) : Bool × Bool × Bool :=
+  let nr := !s.ready
+  let un := match s.unresolved with | some u => decide (u.length > 0) | none => false
+  (nr || un, nr, un)
+
 /-- `ConsensusIndex.GetLastAccepted` -/
 def ciLast (s : State) : Res :=
   match s.lastProcessed with
@@ -567,7 +577,9 @@ def pre (s : State) (e : Eng) : Op → Bool
   | .start b =>
     !e.syncing && !e.synced && e.processing.isEmpty && s.queue.isEmpty && s.inflight.isNone && !b.invalid &&
     (b == e.lastAcc || b.height > e.lastAcc.height)
-  | .finish b _ => !e.syncing || e.syncChain.contains b
+  | .finish b _ =>
+    -- the target was accepted since sync started and target+1..tip is still within index retention
+    !e.syncing || (e.syncChain.contains b && (s.idx.window == 0 || e.lastAcc.height - b.height ≤ s.idx.window))
   | _ => true
 
 /-- the engine's bookkeeping after a call returned `r` (`s` is the VM state before the call) -/
